@@ -76,6 +76,24 @@ func c03Template(b *core.B, class, in string) {
 	if err == nil && t == nil {
 		b.ViolateIn("nil-template-nil-error", in, "plush.NewTemplate returned (nil, nil)")
 	}
+	if err != nil && t != nil {
+		// the template value handed back with the error must stay unusable:
+		// parsing it again fails again, executing it returns the error
+		var err2, err3 error
+		var out string
+		pan := core.Guard(func() {
+			err2 = t.Parse()
+			out, err3 = t.Exec(plush.NewContext())
+		})
+		switch {
+		case pan != nil:
+			b.ViolateIn("reuse-after-failed-parse|"+pan.Sig(), in, "Parse/Exec on the template returned together with a syntax error: "+pan.Value)
+		case err2 == nil:
+			b.ViolateIn("reuse-after-failed-parse|second-parse-succeeds", in, fmt.Sprintf("NewTemplate failed with %q but a second Parse() on the returned template reports success", err))
+		case err3 == nil:
+			b.ViolateIn("reuse-after-failed-parse|exec-succeeds", in, fmt.Sprintf("NewTemplate failed with %q but Exec on the returned template rendered %q", err, out))
+		}
+	}
 }
 
 func c03Run(b *core.B) {
@@ -104,7 +122,11 @@ func c03Run(b *core.B) {
 				sb.WriteString(c03Vocab[t])
 			}
 			sb.WriteString(fr.post)
-			c03Check(b, "seq/"+c03Framings[fi].name, sb.String())
+			if len(seq) <= 2 {
+				c03Template(b, "seq/"+c03Framings[fi].name, sb.String())
+			} else {
+				c03Check(b, "seq/"+c03Framings[fi].name, sb.String())
+			}
 			b.NonTrivialDistinct()
 		}
 	}
